@@ -1,5 +1,6 @@
 import OvniModel.Lemmas.FsGlobal
 import OvniModel.Lemmas.FsWitness
+import OvniModel.Lemmas.FsBuffer
 
 /-!
 # C09 — crash consistency
@@ -165,6 +166,28 @@ theorem finished_after_data_partial (C : Codec) (p : Prog) (hwf : WellFormed p)
       cases hfin
   · rw [visible_of_view]
     simp only [View.o, h, List.take_nil, List.append_nil]
+
+/-! ### what "complete" means in terms of the buffer model
+
+The bytes `ThreadProg.obsBytes` the theorems speak about are the stream file
+of the C01/C02 theorems: if the thread program's I/O steps are those of a
+buffer-model program (`writesOf`, attribute flushes may be interleaved), the
+complete stream.obs is `St.diskBytes` of that program's final state. -/
+
+theorem obsBytes_is_buffer_disk {D : Type} [JData D] (cap : Nat) (magic : List Nat) (version : Nat)
+    (s0 s1 s2 : St D) (body : List (Op D)) (ps : List PStep) (t : ThreadProg)
+    (h0 : s0.disk = []) (hr : s0.ready = false) (hf : s0.finished = false)
+    (hi : step cap s0 .init = some s1) (hni : ∀ op ∈ body, op ≠ .init)
+    (hw : writesOf cap s1 body = some (s2, ps))
+    (hh : t.hdr = streamHeader magic version) (hs : stepsBytes t.steps = stepsBytes ps) :
+    Ovni.Rt.run cap s0 (.init :: body) = some s2 ∧ t.obsBytes = s2.diskBytes magic version := by
+  obtain ⟨r1, r2⟩ := writesOf_spec cap magic version s1 body hni s2 ps hw
+  refine ⟨by simp only [Ovni.Rt.run, hi]; exact r1, ?_⟩
+  rw [r2, ThreadProg.obsBytes, hh, hs]
+  congr 1
+  simp only [step, threadInit, hr, hf, Bool.false_eq_true, if_false, Option.some.injEq] at hi
+  subst hi
+  simp [St.diskBytes, h0]
 
 /-! ### the code as it stands: the full statements are false
 
